@@ -109,6 +109,15 @@ def _q6(ea, eb, ec, ms, ma, mb, mc, ja, jb, f0, f1, f2, now0, pert, tp):
         again = [j["name"] for j in abst.jobs_by_cmd(w)[n1:]]
         if sorted(again) != sorted(pr.names[i] for i in range(pr.n) if not pr.outputs[i]):
             return "the re-run after a successful run submitted %s" % again
+        # ---- an invocation restricted to the first target changes nothing for the others
+        n1r = len(abst.jobs_by_cmd(w))
+        w.run((pr.names[0],))
+        if len(abst.jobs_by_cmd(w)) != n1r:
+            return "run %s after a successful run submitted %s" % (pr.names[0], [j["name"] for j in abst.jobs_by_cmd(w)[n1r:]])
+        table = w.status_table()
+        for i in range(pr.n):
+            if pr.outputs[i] and table.get(pr.names[i]) != "completed":
+                return "after a successful run and then `run %s`, %s is shown %s" % (pr.names[0], pr.names[i], table.get(pr.names[i]))
         # ---- perturbation
         if pert == 0:
             return ""
@@ -173,5 +182,5 @@ QUERIES = [
                             + [{"shape": "chain2+sink", "be": b, "earlier": False} for b in ("slurm", "local")] + [{"shape": "diamond4", "be": "slurm", "earlier": False, "fresh": True, "pert": p} for p in range(6)]},
      "timeout": {"quick": 1500, "thorough": 3600},
      "bound": "chain of 2 with earlier job states of A and B in {none, failed, cancelled, completed} (4 combinations quick, all 16 thorough), existence and modification time (symbolic int) of every file, finish time of every job (symbolic int under the scheduler contract), "
-              "one perturbation (touch of any source with a symbolic later time / deletion of any output) and the following run; fork and join on 3 targets, a triangle with a shortcut edge, a chain whose intermediate file has a decomposed (NFD) name, a chain whose source is a symbolic link to data kept elsewhere, chain + output-less sink and chain of 2 on SGE/LSF/pool from a fresh project (no outputs yet) in quick; spec hashing with the recorded hash of every / only the first / only the second target outdated; arbitrary initial files for those shapes, all backends, hashing, diamond in thorough"},
+              "an invocation restricted to the first target (no effect on the others), one perturbation (touch of any source with a symbolic later time / deletion of any output) and the following run; fork and join on 3 targets, a triangle with a shortcut edge, a chain whose intermediate file has a decomposed (NFD) name, a chain whose source is a symbolic link to data kept elsewhere, chain + output-less sink and chain of 2 on SGE/LSF/pool from a fresh project (no outputs yet) in quick; spec hashing with the recorded hash of every / only the first / only the second target outdated; arbitrary initial files for those shapes, all backends, hashing, diamond in thorough"},
 ]
